@@ -5,6 +5,9 @@ system (``vf.oracles.AXES`` spells that convention and C01 holds the coordinate 
 2-D x<->j, y<->i reversed; 3-D x<->j, y<->k reversed, z<->i reversed; 1-D x<->i.
 """
 import itertools
+import os
+import sys
+import types
 
 import numpy as np
 from hypothesis import strategies as st
@@ -237,6 +240,34 @@ def check_agrees_with_cs(case):
         if float(cs.length(3, XYZ[c])) != 3 * h:
             raise Violation(f"length-name:dim{d}", f"coordinatesystem.length(3, {XYZ[c]!r}) = "
                             f"{cs.length(3, XYZ[c])!r}, voxel size {h!r}", tt)
+        # the relative (vector) form of the voxel -> coordinate map names the same pairing and
+        # orientation: one voxel along matrix axis m is exactly +-(voxel size) along c
+        vec = np.asarray(cs.coordinate_vector(e.astype(float)), dtype=float)
+        want_vec = np.zeros(d)
+        want_vec[c] = -h if rev else h
+        if vec.shape != (d,) or not np.array_equal(vec, want_vec):
+            raise Violation(f"coordinate-vector-vs-cs:dim{d}",
+                            f"coordinate_vector(unit vector on matrix axis {IJK[m]}) = {vec.tolist()}; "
+                            f"the same step moves coordinate() by {step.tolist()} (voxel size "
+                            f"{h!r} along {XYZ[c]}, reversed={rev})", tt)
+        # metric length -> voxel count addressed by the Cartesian name uses that voxel size too
+        nv = cs.num_voxels(2.5 * h, XYZ[c])
+        if int(nv) != 3:
+            raise Violation(f"num-voxels-name:dim{d}", f"coordinatesystem.num_voxels(2.5 * {h!r}, "
+                            f"{XYZ[c]!r}) = {nv!r}: 2.5 voxel sizes touch 3 voxels", tt)
+    # the inverse map agrees: the centre of voxel ``base`` (placed by the independent reference
+    # map) is in voxel ``base`` - every Cartesian component lands on the matrix axis the tables
+    # pair it with, counted in the stated direction
+    centre = ref.coordinate(base + 0.5)
+    worst = max(64 * np.finfo(float).eps * (abs(centre[c]) + abs(ref.origin[c]) + ref.h[AXES[d][c][0]])
+                / ref.h[AXES[d][c][0]] for c in range(d))
+    inverse_checked = worst < 0.05
+    if inverse_checked:
+        back = np.asarray(cs.voxel(np.array(centre, dtype=float)))
+        if back.shape != (d,) or not np.array_equal(back, base):
+            raise Violation(f"voxel-vs-cs:dim{d}",
+                            f"coordinatesystem.voxel(centre of voxel {base.tolist()} = "
+                            f"{centre.tolist()}) = {back.tolist()}", t)
     # second pass (after the coordinate system and interpret_indexing were compared on every
     # axis): the single-axis translation helpers
     for m, c, rev in pairs:
@@ -253,7 +284,9 @@ def check_agrees_with_cs(case):
                             f"to_matrix_indexing({XYZ[c]!r},{XYZ[:d]!r}) = {got!r}", tt)
     return Outcome(nontrivial=d != 2, key=[d, spec["shape"], spec["dimensions"], spec["origin"],
                                           base.tolist()],
-                   labels=(f"dim{d}", "origin-" + t["origin"]), evals=d)
+                   labels=(f"dim{d}", "origin-" + t["origin"],
+                           "inverse-map-" + ("checked" if inverse_checked else "skipped-roundoff")),
+                   evals=3 * d + int(inverse_checked))
 
 
 # ---------------------------------------------------------------------------------------
@@ -261,10 +294,18 @@ def check_agrees_with_cs(case):
 # ---------------------------------------------------------------------------------------
 
 
+# photographs are integer-typed, masks boolean: addressing an axis is not a float-only operation
+_NAMED_DTYPES = ("float64", "float64", "float64", "float32", "uint8", "uint16", "bool")
+
+
+def _intlike(spec):
+    return spec["dtype"] in ("uint8", "uint16", "bool")
+
+
 def gen_named(tier):
     @st.composite
     def strat(draw):
-        spec = draw(gens.image_specs(dims=(2, 3), max_extent={2: 8, 3: 5}, dtypes=("float64",),
+        spec = draw(gens.image_specs(dims=(2, 3), max_extent={2: 8, 3: 5}, dtypes=_NAMED_DTYPES,
                                      max_nt=3, max_comp=3))
         d = spec["dim"]
         c = draw(st.integers(0, d - 1))
@@ -292,7 +333,8 @@ def _named_setup(case):
 def _labels_named(spec, c, extra=()):
     return (f"dim{spec['dim']}", f"axis-{XYZ[c]}",
             f"payload-{spec['payload']}{'-series' if spec['series'] else ''}",
-            "origin-user" if spec["origin"] is not None else "origin-default") + tuple(extra)
+            "origin-user" if spec["origin"] is not None else "origin-default",
+            f"dtype-{spec['dtype']}") + tuple(extra)
 
 
 def _distinct_extents(shape):
@@ -307,6 +349,14 @@ def _reduce(img, axis, mode, kw, d, tags):
     """reduce_axis on an input of its domain (valid axis, valid layer index of that axis)."""
     try:
         return darsia.reduce_axis(img, axis, mode, **kw)
+    except TypeError as e:
+        # numpy's UFuncTypeError (in-place true division of an integer array) derives from it
+        if img.img.dtype.kind not in "biu":
+            raise
+        raise Violation(f"integer-image:reduce-{mode}",
+                        f"reduce_axis(img, {axis!r}, {mode!r}{_kwtxt(kw)}) on a {img.img.dtype} image "
+                        f"of shape {list(img.img.shape)} raised {type(e).__name__}({e})",
+                        dict(tags, dtype=str(img.img.dtype)))
     except IndexError as e:
         raise Violation(f"reduce-fails:{mode}:dim{d}",
                         f"reduce_axis(img, {axis!r}, {mode!r}{_kwtxt(kw)}) on an image of shape "
@@ -349,8 +399,20 @@ def check_name_equals_index_reduce(case):
     src = gens.build_image(spec)
     arr = np.array(src.img, copy=True)
     dims_in = [float(x) for x in src.dimensions]
-    a = gens.snapshot(_reduce(src, XYZ[c], mode, kw, d, t))
-    b = gens.snapshot(_reduce(gens.build_image(spec), m, mode, kw, d, t))
+    before = gens.snapshot(src)
+    # both forms address the *same image object* (first by name, then by index, or the other way
+    # round), as a caller comparing them would; a third call on a fresh image tells a difference
+    # between the forms from a call that changed the image it was given
+    forms = [XYZ[c], m] if case["vfrac"] % 2 == 0 else [m, XYZ[c]]
+    res = {}
+    for f in forms:
+        res[f] = gens.snapshot(_reduce(src, f, mode, kw, d, t))
+        ok, why = gens.snapshot_equal(before, gens.snapshot(src))
+        if not ok:
+            raise Violation(f"reduce-changes-its-input:dim{d}",
+                            f"after reduce_axis(img, {f!r}, {mode!r}{_kwtxt(kw)}) the image itself "
+                            f"differs: {why}", t)
+    a, b = res[XYZ[c]], res[m]
     ok, why = gens.snapshot_equal(a, b)
     if not ok:
         raise Violation(f"reduce-name-vs-index:dim{d}",
@@ -366,9 +428,16 @@ def check_name_equals_index_reduce(case):
         want = np.sum(arr, axis=m)
         if mode == "average":
             want = want / arr.shape[m]
+    # (the mean of an integer-typed image is asserted up to the rounding convention: any value
+    # within one unit of the exact mean; sums, layers and float means are exact)
+    loose = mode == "average" and _intlike(spec)
     for how, got in ((repr(XYZ[c]), a), (repr(m), b)):
         g = np.asarray(got["img"])
-        if g.shape != want.shape or not np.array_equal(g, want):
+        if loose:
+            same = g.shape == want.shape and bool(np.all(np.abs(g.astype(float) - want) < 1.0))
+        else:
+            same = g.shape == want.shape and np.array_equal(g, want)
+        if not same:
             other = [mm for mm in range(d) if mm != m and _reduced_along(arr, mm, mode, kw, g)]
             raise Violation(f"reduce-acts-on-other-axis:{mode}:dim{d}",
                             f"reduce_axis(img, {how}, {mode!r}{_kwtxt(kw)}).img (shape {list(g.shape)}) "
@@ -386,7 +455,8 @@ def check_name_equals_index_reduce(case):
                             f"dimensions {dims_in} without matrix axis {m} are {want_dims}", t)
     # slicing and reduction address the same layer: mode "slice" at index n along an axis holds
     # the data of Image.slice(n, <matrix index of that axis>)
-    if mode == "slice":
+    # (floating-point images here; Image.slice of integer-typed images: name_equals_index_slice)
+    if mode == "slice" and not _intlike(spec):
         ref_img = np.asarray(gens.build_image(spec).slice(kw["slice_idx"], m).img)
         g = np.asarray(a["img"])
         if g.shape != ref_img.shape or not np.array_equal(g, ref_img):
@@ -405,6 +475,20 @@ def check_name_equals_index_reduce(case):
                    labels=_labels_named(spec, c, extra))
 
 
+def _slice(img, cut, axis, tags):
+    """Image.slice; cutting a layer out of an integer-typed image involves no arithmetic, a
+    numpy casting error there gets its own kind."""
+    try:
+        return img.slice(cut, axis)
+    except TypeError as e:
+        if img.img.dtype.kind not in "biu":
+            raise
+        raise Violation("integer-image:slice",
+                        f"img.slice({cut!r}, {axis!r}) on a {img.img.dtype} image of shape "
+                        f"{list(img.img.shape)} raised {type(e).__name__}({e})",
+                        dict(tags, dtype=str(img.img.dtype)))
+
+
 def check_name_equals_index_slice(case):
     spec, d, c, m, sgn, n, v = _named_setup(case)
     t = {"dim": d, "axis": XYZ[c]}
@@ -418,19 +502,26 @@ def check_name_equals_index_slice(case):
         return Outcome(nontrivial=False, key=None, status="skipped")
     img = gens.build_image(spec)
     arr = img.img.copy()
-    by_index = gens.snapshot(img.slice(v, m))
+    before = gens.snapshot(img)
+    by_index = gens.snapshot(_slice(img, v, m, t))
     want = np.take(arr, v, axis=m)
-    if by_index["img"].shape != want.shape or not np.array_equal(by_index["img"], want):
+    if (by_index["img"].shape != want.shape or by_index["img"].dtype != want.dtype
+            or not np.array_equal(by_index["img"], want)):
         raise Violation(f"slice-index-data:dim{d}", f"img.slice({v}, {m}).img is not the array "
-                        f"layer {v} of axis {m}", t)
-    img2 = gens.build_image(spec)
+                        f"layer {v} of axis {m} ({by_index['dtype']} {list(by_index['img'].shape)} "
+                        f"from a {arr.dtype} image)", t)
+    # the same image object is then addressed by name (as a caller comparing the two would)
     try:
-        by_name_img = img2.slice(coord, XYZ[c])
+        by_name_img = _slice(img, coord, XYZ[c], t)
     except (AssertionError, IndexError, ValueError) as e:
         raise Violation(f"slice-by-name-fails:dim{d}",
                         f"img.slice({coord!r}, {XYZ[c]!r}) raised {type(e).__name__}({e}); "
                         f"img.slice({v}, {m}) works", t)
     by_name = gens.snapshot(by_name_img)
+    ok, why = gens.snapshot_equal(before, gens.snapshot(img))
+    if not ok:
+        raise Violation(f"slice-changes-its-input:dim{d}", f"after img.slice({v}, {m}) and "
+                        f"img.slice({coord!r}, {XYZ[c]!r}) the image itself differs: {why}", t)
     ok, why = gens.snapshot_equal(by_name, by_index)
     if not ok:
         raise Violation(f"slice-name-vs-index:dim{d}",
@@ -445,7 +536,7 @@ def check_name_equals_index_slice(case):
                       origin=None if spec["origin"] is None else [int(x) for x in spec["origin"]])
         img3 = gens.build_image(spec_i)
         try:
-            got_i = np.asarray(img3.slice(coord, XYZ[c]).img)
+            got_i = np.asarray(_slice(img3, coord, XYZ[c], t).img)
         except (AssertionError, IndexError, ValueError) as e:
             raise Violation(f"slice-by-name-fails:int-metadata:dim{d}", f"integer-typed dimensions/origin: "
                             f"img.slice({coord!r}, {XYZ[c]!r}) raised {type(e).__name__}({e})", t)
@@ -463,7 +554,7 @@ def check_name_equals_index_slice(case):
 # ---------------------------------------------------------------------------------------
 
 
-def gen_layout(tier, dims=(1, 2, 3)):
+def gen_layout(tier, dims=(1, 2, 3), trailing=True, extra=None):
     @st.composite
     def strat(draw):
         d = draw(st.sampled_from(list(dims)))
@@ -477,9 +568,12 @@ def gen_layout(tier, dims=(1, 2, 3)):
         origin = None
         if okind == "user":
             origin = [float(draw(st.integers(-50, 50)) * vox[AXES[d][c][0]]) for c in range(d)]
-        trailing = draw(st.lists(st.integers(1, 3), min_size=0, max_size=2))
-        return {"dim": d, "shape": list(shape), "vox": vox, "origin": origin,
-                "trailing": trailing, "pseed": draw(st.integers(0, 2**16))}
+        trail = draw(st.lists(st.integers(1, 3), min_size=0, max_size=2)) if trailing else []
+        case = {"dim": d, "shape": list(shape), "vox": vox, "origin": origin,
+                "trailing": trail, "pseed": draw(st.integers(0, 2**16))}
+        for k, strategy in (extra or {}).items():
+            case[k] = draw(strategy)
+        return case
 
     return strat()
 
@@ -592,14 +686,226 @@ def check_layout_inverse(case):
 
 
 # ---------------------------------------------------------------------------------------
+# 7. the VTK export (utils/plotting.py:to_vtk, Image.to_vtk): the rectilinear grid handed to the
+#    writer is built from interpret_indexing + matrixToCartesianIndexing
+# ---------------------------------------------------------------------------------------
+
+_VERIF = os.path.dirname(os.path.dirname(os.path.dirname(os.path.abspath(__file__))))
+
+
+def _record_vtk_writes(fn):
+    """Run ``fn`` with a recording stand-in for ``pyevtk.hl.gridToVTK`` (the only thing to_vtk
+    imports from pyevtk; the package is not installed here, and the law is about what is handed
+    to the writer, not about the file format).  -> list of recorded calls."""
+    calls = []
+
+    def gridToVTK(path, x, y, z, cellData=None, pointData=None, **kwargs):
+        calls.append({"x": np.array(x, dtype=float), "y": np.array(y, dtype=float),
+                      "z": np.array(z, dtype=float),
+                      "cellData": {k: np.array(v) for k, v in (cellData or {}).items()
+                                   if isinstance(v, np.ndarray)}})
+        return path
+
+    hl = types.ModuleType("pyevtk.hl")
+    hl.gridToVTK = gridToVTK
+    pkg = types.ModuleType("pyevtk")
+    pkg.hl = hl
+    saved = {k: sys.modules.get(k) for k in ("pyevtk", "pyevtk.hl")}
+    sys.modules["pyevtk"], sys.modules["pyevtk.hl"] = pkg, hl
+    try:
+        fn()
+    finally:
+        for k, v in saved.items():
+            if v is None:
+                sys.modules.pop(k, None)
+            else:
+                sys.modules[k] = v
+    return calls
+
+
+def gen_vtk(tier):
+    return gen_layout(tier, trailing=False, extra={
+        "via": st.sampled_from(["function", "function+ndarray", "method"])})
+
+
+def check_vtk_grid_placement(case):
+    d, shape, via = case["dim"], case["shape"], case["via"]
+    t = {"dim": d, "via": via}
+    arr = _payload(case)
+    arr2 = _payload(dict(case, pseed=case["pseed"] + 1)) + float(arr.size)
+    dims = [shape[i] * case["vox"][i] for i in range(d)]
+    kw = {"space_dim": d, "dimensions": list(dims), "scalar": True}
+    if case["origin"] is not None:
+        kw["origin"] = list(case["origin"])
+    img = darsia.Image(arr.copy(), **kw)
+    cs = img.coordinatesystem
+    scratch = os.path.join(_VERIF, ".cache", "run-C20", f"vtk-{os.getpid()}")
+    os.makedirs(scratch, exist_ok=True)
+    path = os.path.join(scratch, "grid")
+    fields = {"f": arr}
+    if via == "method":
+        run = lambda: img.to_vtk(path, name="f")  # noqa: E731
+    else:
+        data = [("f", img, darsia.Format.SCALAR)]
+        if via == "function+ndarray":
+            data.append(("g", arr2.copy(), darsia.Format.SCALAR))
+            fields["g"] = arr2
+        run = lambda: darsia.plotting.to_vtk(path, data)  # noqa: E731
+    try:
+        calls = _record_vtk_writes(run)
+    finally:
+        try:
+            os.rmdir(scratch)
+        except OSError:
+            pass
+    if len(calls) != 1:
+        raise Violation("vtk-writer-calls", f"the grid writer was called {len(calls)} times", t)
+    call = calls[0]
+    # where the coordinate system puts every voxel centre, and which grid cell contains it
+    vox = np.array(list(itertools.product(*[range(n) for n in shape])), dtype=int)
+    centres = np.asarray(cs.coordinate(vox + 0.5), dtype=float).reshape(len(vox), d)
+    cell = np.zeros((len(vox), 3), dtype=int)
+    want_shape = []
+    for c in range(3):
+        nodes = call["xyz"[c]]
+        if c >= d:
+            if nodes.size != 1:
+                raise Violation(f"vtk-grid:dim{d}", f"{d}-d image: grid nodes along {XYZ[c]} are "
+                                f"{nodes.tolist()}", t)
+            want_shape.append(1)
+            continue
+        h = float(cs.voxel_size[XYZ[c]])
+        lo = float(cs.domain[XYZ[c] + "min"])
+        hi = float(cs.domain[XYZ[c] + "max"])
+        count = int(round((hi - lo) / h))
+        want_shape.append(count)
+        tt = dict(t, axis=XYZ[c])
+        # the nodes along a Cartesian axis are the faces of the voxel layers of the matrix axis
+        # the coordinate system pairs with it: that many of them, that far apart, spanning the
+        # extent filed under that Cartesian name
+        lattice = lo + h * np.arange(count + 1)
+        if nodes.ndim != 1 or nodes.size != count + 1 or np.any(
+                np.abs(np.sort(nodes) - lattice) > 1e-9 * h):
+            raise Violation(f"vtk-grid:dim{d}",
+                            f"grid nodes along {XYZ[c]}: {nodes.tolist()}; the coordinate system has "
+                            f"{count} voxel layers of size {h!r} on [{lo!r}, {hi!r}] there", tt)
+        a, b = np.minimum(nodes[:-1], nodes[1:]), np.maximum(nodes[:-1], nodes[1:])
+        inside = (a[None, :] < centres[:, c, None]) & (centres[:, c, None] < b[None, :])
+        if np.any(inside.sum(axis=1) != 1):
+            raise HarnessError("a voxel centre is not strictly inside exactly one grid cell")
+        cell[:, c] = np.argmax(inside, axis=1)
+    for name, src in fields.items():
+        got_arr = call["cellData"].get(name)
+        if got_arr is None or tuple(got_arr.shape) != tuple(want_shape):
+            raise Violation(f"vtk-cell-data-shape:dim{d}",
+                            f"cell data {name!r} handed to the writer has shape "
+                            f"{None if got_arr is None else list(got_arr.shape)}; the grid has "
+                            f"{want_shape} cells along x, y, z", t)
+        got = got_arr[cell[:, 0], cell[:, 1], cell[:, 2]]
+        want = src[tuple(vox[:, m] for m in range(d))]
+        if not np.array_equal(got, want):
+            bad = int(np.argwhere(got != want)[0][0])
+            raise Violation(f"vtk-placement:dim{d}",
+                            f"field {name!r}: voxel {vox[bad].tolist()} (centre {centres[bad].tolist()}) "
+                            f"holds {want[bad]!r}; the grid cell {cell[bad].tolist()} containing that "
+                            f"point carries {got[bad]!r}", dict(t, field=name))
+    if not np.array_equal(img.img, arr):
+        raise Violation("vtk-mutates-input", "to_vtk changed the image array", t)
+    return Outcome(nontrivial=(d != 2 or _distinct_extents(shape)) and len(vox) > 1,
+                   key=[d, shape, case["origin"], case["vox"], case["pseed"], via],
+                   labels=(f"dim{d}", f"via-{via}",
+                           "distinct-extents" if _distinct_extents(shape) else "repeated-extents",
+                           "origin-user" if case["origin"] is not None else "origin-default"),
+                   evals=len(vox) * len(fields))
+
+
+# ---------------------------------------------------------------------------------------
+# 8. extrusion ("performed along the z axis") adds the axis every helper calls z
+# ---------------------------------------------------------------------------------------
+
+
+def gen_extrude(tier):
+    return st.fixed_dictionaries({
+        "img": gens.image_specs(dims=(2,), max_extent={2: 6}, dtypes=_NAMED_DTYPES, max_nt=3,
+                                max_comp=3),
+        "num": st.integers(1, 4),
+        "height": st.sampled_from([1.0, 0.5, 4.0, 0.3, 2.75, 1e-3, 123.0]),
+        "layer": st.integers(0, 11),
+        "t": st.sampled_from([0.5, 0.25, 0.75]),
+    })
+
+
+def check_extrusion_axis(case):
+    spec, num, height = case["img"], case["num"], case["height"]
+    k = case["layer"] % num
+    t = {"num": num, "payload": spec["payload"], "series": spec["series"]}
+    img = gens.build_image(spec)
+    arr = img.img.copy()
+    dims_in = [float(x) for x in img.dimensions]
+    ext = darsia.extrude_along_axis(img, height, num)
+    mz, _ = _interpret("z", IJK, t)  # tables_agree holds this row to the coordinate system
+    if ext.space_dim != 3 or tuple(ext.img.shape) != tuple(
+            list(arr.shape[:mz]) + [num] + list(arr.shape[mz:])):
+        raise Violation("extrude-axis:shape",
+                        f"extrude_along_axis(img of shape {list(arr.shape)}, {height}, {num}) has "
+                        f"space_dim {ext.space_dim}, shape {list(ext.img.shape)}; the {num} new "
+                        f"layers belong on matrix axis {mz}, the axis paired with z", t)
+    cs = ext.coordinatesystem
+    hz = float(cs.voxel_size["z"])
+    zext = float(cs.domain["zmax"]) - float(cs.domain["zmin"])
+    tol = 16 * np.finfo(float).eps * (abs(float(cs.domain["zmax"])) + abs(float(cs.domain["zmin"]))
+                                      + height)
+    if abs(hz * num - height) > 8 * np.finfo(float).eps * height or abs(zext - height) > tol:
+        raise Violation("extrude-axis:height",
+                        f"extruded by {height} in {num} layers: voxel size along z is {hz!r}, the "
+                        f"domain spans {zext!r} along z", t)
+    # every layer addressed through the name "z" is the original image
+    red = darsia.reduce_axis(ext, "z", "slice", slice_idx=k)
+    if red.img.dtype != arr.dtype or red.img.shape != arr.shape or not np.array_equal(red.img, arr):
+        raise Violation("extrude-axis:layer",
+                        f"reduce_axis(extruded, 'z', 'slice', slice_idx={k}).img is not the "
+                        f"extruded image's array", t)
+    if [float(x) for x in red.dimensions] != dims_in:
+        raise Violation("extrude-axis:dimensions",
+                        f"dropping z from the extruded image leaves dimensions "
+                        f"{[float(x) for x in red.dimensions]}, the original has {dims_in}", t)
+    by_coordinate = False
+    if not _intlike(spec):  # (integer-typed images: see name_equals_index_slice)
+        pos = np.zeros(3)
+        pos[mz] = k + case["t"]
+        zc = float(np.asarray(cs.coordinate(pos), dtype=float)[2])
+        margin = 64 * np.finfo(float).eps * (abs(zc) + abs(float(cs.domain["zmax"])) + hz) / hz
+        if margin < 0.05:
+            by_coordinate = True
+            cut = ext.slice(zc, "z")
+            if cut.img.shape != arr.shape or not np.array_equal(cut.img, arr):
+                raise Violation("extrude-axis:slice",
+                                f"extruded.slice({zc!r}, 'z').img is not the extruded image's "
+                                f"array", t)
+    return Outcome(nontrivial=num > 1 and arr.size > 1,
+                   key=[spec["shape"], spec["dimensions"], spec["origin"], spec["payload"],
+                        spec["series"], spec["dtype"], num, height, k, spec["pseed"]],
+                   labels=(f"num{num}", f"dtype-{spec['dtype']}",
+                           f"payload-{spec['payload']}{'-series' if spec['series'] else ''}",
+                           "origin-user" if spec["origin"] is not None else "origin-default",
+                           "slice-by-coordinate" if by_coordinate else "slice-by-layer-only"),
+                   evals=2 + int(by_coordinate))
+
+
+# ---------------------------------------------------------------------------------------
 
 _RULE = ("tables: every (dimension 1-3, axis, direction, str/int axis form) of to_matrix_indexing / "
          "to_cartesian_indexing / interpret_indexing, exhaustively; coordinate-system agreement: "
          "Hypothesis-drawn geometries (dim 1-3, default / user origin, power-of-two / generic / unit "
-         "voxel sizes) with a unit step on every matrix axis; name-vs-index: random 2-D/3-D float64 "
-         "images (scalar / vector / series, any origin) x Cartesian axis x mode / cut position; "
+         "voxel sizes) with a unit step on every matrix axis (coordinate, coordinate_vector, voxel, "
+         "length / num_voxels by name); name-vs-index: random 2-D/3-D images (float64 / float32 / "
+         "uint8 / uint16 / bool; scalar / vector / series, any origin) x Cartesian axis x mode / cut "
+         "position, both forms on one image object; "
          "layout: random arrays with pairwise distinct entries, 0-2 trailing payload axes, every voxel "
-         "placed; non-trivial = dim 1 or 3, or pairwise distinct extents; distinct = the case")
+         "placed; VTK export: the grid nodes and cell data handed to the writer, every voxel placed "
+         "(dim 1-3, function / method / extra ndarray field); extrusion: random 2-D images x layer "
+         "count x height, layers read back through the name z; "
+         "non-trivial = dim 1 or 3, or pairwise distinct extents; distinct = the case")
 
 _ONE = {"quick": 1, "thorough": 1}
 
@@ -612,7 +918,12 @@ PROP = Prop(
         "slicing by Cartesian name is asserted only for coordinates strictly inside a voxel layer",
         "cartesianToMatrixIndexing is documented 2-D only: inverse law asserted in 2-D, observed "
         "(labels) in 3-D",
-        "write-to-VTK path of utils/plotting.py not executed (pyevtk not installed)",
+        "utils/plotting.py:to_vtk is run with a recording stand-in for pyevtk.hl.gridToVTK (pyevtk "
+        "is not installed): asserted is what is handed to the writer for scalar fields (grid nodes, "
+        "cell placement); the component re-ordering of vector / tensor fields is not asserted",
+        "the mean of an integer-typed image (reduce_axis mode 'average') is asserted up to the "
+        "rounding convention (within one unit of the exact mean)",
+        "slicing / reducing a 1-D image (a 0-dimensional result) is not generated",
     ],
     subs=[
         Sub("tables_agree", check_tables_agree, enum=enum_tables, exhaustive=True, shards=_ONE),
@@ -630,5 +941,9 @@ PROP = Prop(
         Sub("layout_inverse", check_layout_inverse,
             gen=lambda tier: gen_layout(tier, dims=(2, 2, 2, 2, 1, 3)),
             n={"quick": 2400, "thorough": 48000}, shards={"quick": 2, "thorough": 8}),
+        Sub("vtk_grid_placement", check_vtk_grid_placement, gen=gen_vtk,
+            n={"quick": 900, "thorough": 18000}, shards={"quick": 1, "thorough": 6}),
+        Sub("extrusion_is_along_z", check_extrusion_axis, gen=gen_extrude,
+            n={"quick": 600, "thorough": 12000}, shards={"quick": 1, "thorough": 4}),
     ],
 )
